@@ -32,16 +32,13 @@ impl MmapMut {
     fn flush_async(&self) -> std::io::Result<()> {
         panic!()
     }
-
-    fn copy_from_slice(&self, _: &[u8]) {
-        panic!()
-    }
 }
 
 pub struct Writer {
     cache: PathBuf,
     builder: IntegrityOpts,
     mmap: Option<MmapMut>,
+    mmap_pos: usize,
     tmpfile: NamedTempFile,
 }
 
@@ -72,10 +69,17 @@ impl Writer {
             builder: IntegrityOpts::new().algorithm(algo),
             tmpfile,
             mmap,
+            mmap_pos: 0,
         })
     }
 
-    pub fn close(self) -> Result<Integrity> {
+    pub fn close(mut self) -> Result<Integrity> {
+        finish_mapped(&mut self.mmap, self.mmap_pos, &self.tmpfile).with_context(|| {
+            format!(
+                "Failed to finalize temp file at {}",
+                self.tmpfile.path().display()
+            )
+        })?;
         let sri = self.builder.result();
         let cpath = path::content_path(&self.cache, &sri);
         DirBuilder::new()
@@ -115,12 +119,7 @@ impl Writer {
 impl Write for Writer {
     fn write(&mut self, buf: &[u8]) -> std::io::Result<usize> {
         self.builder.input(buf);
-        if let Some(mmap) = &mut self.mmap {
-            mmap.copy_from_slice(buf);
-            Ok(buf.len())
-        } else {
-            self.tmpfile.write(buf)
-        }
+        write_mapped(&mut self.mmap, &mut self.mmap_pos, &mut self.tmpfile, buf)
     }
 
     fn flush(&mut self) -> std::io::Result<()> {
@@ -143,6 +142,7 @@ struct Inner {
     builder: IntegrityOpts,
     tmpfile: NamedTempFile,
     mmap: Option<MmapMut>,
+    mmap_pos: usize,
     buf: Vec<u8>,
     last_op: Option<Operation>,
 }
@@ -177,6 +177,7 @@ impl AsyncWriter {
             cache: cache_path,
             builder: IntegrityOpts::new().algorithm(algo),
             mmap,
+            mmap_pos: 0,
             tmpfile,
             buf: vec![],
             last_op: None,
@@ -197,15 +198,20 @@ impl AsyncWriter {
                         Some(inner) => {
                             let (s, r) = futures::channel::oneshot::channel();
                             let tmpfile = inner.tmpfile;
+                            let mut mmap = inner.mmap;
+                            let mmap_pos = inner.mmap_pos;
                             let sri = inner.builder.result();
                             let cpath = path::content_path(&inner.cache, &sri);
 
                             // Start the operation asynchronously.
-                            *state = State::Busy(crate::async_lib::spawn_blocking(|| {
-                                let res = std::fs::DirBuilder::new()
-                                    .recursive(true)
-                                    // Safe unwrap. cpath always has multiple segments
-                                    .create(cpath.parent().unwrap())
+                            *state = State::Busy(crate::async_lib::spawn_blocking(move || {
+                                let res = finish_mapped(&mut mmap, mmap_pos, &tmpfile)
+                                    .and_then(|_| {
+                                        std::fs::DirBuilder::new()
+                                            .recursive(true)
+                                            // Safe unwrap. cpath always has multiple segments
+                                            .create(cpath.parent().unwrap())
+                                    })
                                     .with_context(|| {
                                         format!(
                                             "building directory {} failed",
@@ -307,15 +313,14 @@ impl AsyncWrite for AsyncWriter {
                         // Start the operation asynchronously.
                         *state = State::Busy(crate::async_lib::spawn_blocking(|| {
                             inner.builder.input(&inner.buf);
-                            if let Some(mmap) = &mut inner.mmap {
-                                mmap.copy_from_slice(&inner.buf);
-                                inner.last_op = Some(Operation::Write(Ok(inner.buf.len())));
-                                State::Idle(Some(inner))
-                            } else {
-                                let res = inner.tmpfile.write(&inner.buf);
-                                inner.last_op = Some(Operation::Write(res));
-                                State::Idle(Some(inner))
-                            }
+                            let res = write_mapped(
+                                &mut inner.mmap,
+                                &mut inner.mmap_pos,
+                                &mut inner.tmpfile,
+                                &inner.buf,
+                            );
+                            inner.last_op = Some(Operation::Write(res));
+                            State::Idle(Some(inner))
                         }));
                     }
                 }
@@ -436,6 +441,64 @@ fn make_mmap(tmpfile: &mut NamedTempFile, size: Option<usize>) -> Result<Option<
     } else {
         Ok(None)
     }
+}
+
+// Copies `buf` into the mapping at the current offset. Data beyond the
+// declared size leaves the mapping and continues with plain file writes.
+#[cfg(feature = "mmap")]
+fn write_mapped(
+    mmap: &mut Option<MmapMut>,
+    pos: &mut usize,
+    tmpfile: &mut NamedTempFile,
+    buf: &[u8],
+) -> std::io::Result<usize> {
+    use std::io::{Seek, SeekFrom};
+
+    if let Some(map) = mmap {
+        let end = *pos + buf.len();
+        if end <= map.len() {
+            map[*pos..end].copy_from_slice(buf);
+            *pos = end;
+            return Ok(buf.len());
+        }
+        map.flush()?;
+        *mmap = None;
+        tmpfile.as_file_mut().seek(SeekFrom::Start(*pos as u64))?;
+    }
+    tmpfile.write(buf)
+}
+
+#[cfg(not(feature = "mmap"))]
+fn write_mapped(
+    _: &mut Option<MmapMut>,
+    _: &mut usize,
+    tmpfile: &mut NamedTempFile,
+    buf: &[u8],
+) -> std::io::Result<usize> {
+    tmpfile.write(buf)
+}
+
+// Unmaps the temp file; if fewer bytes than declared were written, the
+// preallocated tail is cut off so the file holds exactly the hashed data.
+#[cfg(feature = "mmap")]
+fn finish_mapped(
+    mmap: &mut Option<MmapMut>,
+    pos: usize,
+    tmpfile: &NamedTempFile,
+) -> std::io::Result<()> {
+    if let Some(map) = mmap.take() {
+        let len = map.len();
+        drop(map);
+        if pos < len {
+            tmpfile.as_file().set_len(pos as u64)?;
+        }
+    }
+    Ok(())
+}
+
+#[cfg(not(feature = "mmap"))]
+fn finish_mapped(_: &mut Option<MmapMut>, _: usize, _: &NamedTempFile) -> std::io::Result<()> {
+    Ok(())
 }
 
 #[cfg(feature = "mmap")]
